@@ -1,9 +1,11 @@
+import re
 """C07 signing returns success only with a verified signature for the requested hash."""
 from ksirules.flow import g_any, g_cmp, g_nonnull, g_ok, g_true, provenance, stores_through_param
 from ksirules.interp import TOP, Interp, Ptr, inline_model
 from ksirules.model import AnalysisBroken, is_int, is_var, lvalue_key, strip
 from .chain_common import arg_prov, require_chain, require_ok_return
 
+PFX_RULE = "KSI_VerificationRule_"
 TITLE = "signing succeeds only with a verified signature for the requested hash"
 
 # functions allowed to switch off the builder's own verification, each with the reason why that is safe
@@ -70,6 +72,7 @@ def run(prog, chk):
     chk.rule("C07.request", "sign request: trusted algorithm, level range, hash and level passed on unchanged", floor=5)
     chk.rule("C07.status", "service status conversion table", floor=20)
     chk.rule("C07.noverify", "only the frozen set of functions switches off the builder's verification", floor=5)
+    chk.rule("C07.policy", "library-internal signing calls verify the new signature under a policy that contains the internal rules", floor=5)
 
     fs = prog.fn("KSI_Signature_signAggregatedWithPolicy", "signature.c")
     ps = [p["n"] for p in fs.params]
@@ -170,6 +173,33 @@ def run(prog, chk):
                     k = lvalue_key(a, f) or ""
                     if k.startswith("&") and k.endswith("noVerify"):
                         writers.setdefault(f.name, f.loc(f.elem_line(b, i)))
+    # where the builder's own verification is switched off, the caller's policy is all that stands between the reply and the caller: inside
+    # the library that policy is never the empty one and always contains the document-hash rule of the internal policy
+    from . import policy_common as PC
+    T = PC.tables(prog)
+    need = PFX_RULE + "DocumentHashVerification"
+    npol = 0
+    for f in sorted(prog.all_functions(), key=lambda g: (g.unit, g.line)):
+        for b, i, n in f.calls():
+            nm = n.get("fn") or ""
+            if not (re.match(r"^KSI_Signature_(sign|create)\w*WithPolicy$", nm) or nm == "KSI_Signature_signWithPolicy"):
+                continue
+            pols = [provenance(f, b, i, a) for a in n["a"]]
+            pol = [x for x in pols if x.startswith("KSI_VERIFICATION_POLICY_") or x == "param:policy" or x == "NULL" and False]
+            named = [x for x in pols if x.startswith("KSI_VERIFICATION_POLICY_")]
+            npol += 1
+            if not named:
+                chk.ob("C07.policy", "%s->%s" % (f.name, nm), any(x.startswith("param:") for x in pols[2:5]),
+                       "the policy is the caller's own argument, handed on unchanged (%s)" % pols, loc=f.loc(f.elem_line(b, i)), fn=f, nontrivial=False)
+                continue
+            root, fb, pname = T.policy(named[0])
+            ok = need in T.basic_rules(root)
+            chk.ob("C07.policy", "%s->%s" % (f.name, nm), ok,
+                   "signs under %s, whose rules %s the document-hash rule of the internal policy: %s"
+                   % (named[0], "contain" if ok else "DO NOT contain", "the reply is tied to the requested hash" if ok else
+                      "nothing ties the reply to the requested hash (the builder's own verification is off on this path)"), loc=f.loc(f.elem_line(b, i)), fn=f)
+    if npol < 5:
+        raise AnalysisBroken("C07.policy: only %d signing calls with a policy argument found" % npol)
     for w, loc in sorted(writers.items()):
         chk.ob("C07.noverify", w, w in NOVERIFY_WRITERS,
                "switches off the builder's internal verification: " + (NOVERIFY_WRITERS.get(w) or "NOT in the reviewed list of writers"),
